@@ -1788,10 +1788,16 @@ class EventType(VersionedOntologyElement, MutableMapping):
         for property_name, objects in event_properties.items():
             strategy = self.__properties[property_name].get_merge_strategy()
             data_type = ':'.join(self.__properties[property_name].get_data_type().get_split()[0:2])
+
+            def sort_key(value):
+                # Different spellings of the same value are ordered by their spelling, which
+                # makes the outcome independent of the order of the events.
+                return types[data_type](value), value
+
             if strategy == 'min':
-                output_properties[property_name] = [min(event_properties[property_name], key=types[data_type])]
+                output_properties[property_name] = [min(event_properties[property_name], key=sort_key)]
             elif strategy == 'max':
-                output_properties[property_name] = [max(event_properties[property_name], key=types[data_type])]
+                output_properties[property_name] = [max(event_properties[property_name], key=sort_key)]
             elif strategy == 'add':
                 output_properties[property_name] = set(event_properties[property_name])
             elif strategy == 'replace':
